@@ -13,8 +13,9 @@ open Wac Wac.HashSites
 
 /-! ### a dependency edge between two definition nodes -/
 
-theorem inv_addDepEdge' {ctx : Ctx} {g g' : Graph} {a b : Nat} {x y : Node} (h : Inv ctx g)
-    (ha : g.node? a = some x) (hx : x.isDef = true) (hb : g.node? b = some y) (hy : y.isDef = true)
+theorem inv_addDepEdge' {ctx : Ctx} {g g' : Graph} {a b : Nat} {x y : Node} {tx ty : Ty} (h : Inv ctx g)
+    (ha : g.node? a = some x) (hx : x.kind = .definition tx) (hb : g.node? b = some y)
+    (hy : y.kind = .definition ty) (hlt : tx < ty)
     (hn : g'.nodes = g.nodes) (hfn : g'.freeNodes = g.freeNodes) (he : g'.edges = ⟨a, b, .dep⟩ :: g.edges)
     (him : g'.imports = g.imports) (hde : g'.defined = g.defined) (hex : g'.exports = g.exports)
     (hp : g'.pkgs = g.pkgs) (hm : g'.pkgMap = g.pkgMap) (hfp : g'.freePkgs = g.freePkgs) : Inv ctx g' := by
@@ -24,7 +25,8 @@ theorem inv_addDepEdge' {ctx : Ctx} {g g' : Graph} {a b : Nat} {x y : Node} (h :
   · intro e hem
     rw [he] at hem
     rcases List.mem_cons.mp hem with rfl | hem
-    · exact ⟨x, by rw [Option.mem_def, hnode]; exact ha, y, by rw [Option.mem_def, hnode]; exact hb, hx, hy⟩
+    · exact ⟨x, by rw [Option.mem_def, hnode]; exact ha, y, by rw [Option.mem_def, hnode]; exact hb,
+        tx, defTy_eq_some.mpr hx, ty, defTy_eq_some.mpr hy, hlt⟩
     · exact (h.edges e hem).transfer hp (fun m nd hnd => ⟨nd, by rw [hnode]; exact hnd, NodeSim.refl _⟩)
   · rw [he]
     simp only [List.filterMap_cons, Edge.argKey]
@@ -39,8 +41,7 @@ theorem inv_addDepEdge' {ctx : Ctx} {g g' : Graph} {a b : Nat} {x y : Node} (h :
       rw [e, hb] at hnd
       cases hnd
       unfold Node.isAlias at hal
-      unfold Node.isDef at hy
-      cases hk : y.kind <;> simp [hk] at hal hy
+      simp [hy] at hal
     unfold Graph.inEdges
     rw [he]
     simp only [List.filter_cons]
@@ -73,10 +74,11 @@ theorem inv_addDepEdge' {ctx : Ctx} {g g' : Graph} {a b : Nat} {x y : Node} (h :
       rw [hnode] at hv
       rw [hfn]; exact f.all j hj hv
 
-theorem inv_addDepEdge {ctx : Ctx} {g : Graph} {a b : Nat} {x y : Node} (h : Inv ctx g)
-    (ha : g.node? a = some x) (hx : x.isDef = true) (hb : g.node? b = some y) (hy : y.isDef = true) :
+theorem inv_addDepEdge {ctx : Ctx} {g : Graph} {a b : Nat} {x y : Node} {tx ty : Ty} (h : Inv ctx g)
+    (ha : g.node? a = some x) (hx : x.kind = .definition tx) (hb : g.node? b = some y)
+    (hy : y.kind = .definition ty) (hlt : tx < ty) :
     Inv ctx (g.addEdge a b .dep) :=
-  inv_addDepEdge' h ha hx hb hy rfl rfl rfl rfl rfl rfl rfl rfl rfl
+  inv_addDepEdge' h ha hx hb hy hlt rfl rfl rfl rfl rfl rfl rfl rfl rfl
 
 /-- one step of the first loop -/
 def depInStep (ty : Ty) (idx : Nat) (g : Graph) (dep : Ty) : Graph :=
@@ -96,67 +98,76 @@ theorem defineDepsOut_eq (ctx : Ctx) (g : Graph) (ty : Ty) (idx : Nat) (order : 
     defineDepsOut ctx g ty idx order =
       order.foldl (fun g e => (ctx.tyVisits e.1).foldl (depOutStep ty idx e.2) g) g := rfl
 
-/-- a definition node -/
-def IsDefNode (g : Graph) (n : Nat) : Prop := ∃ x, g.node? n = some x ∧ x.isDef = true
+/-- the definition node of type `t` -/
+def IsDefNode (g : Graph) (n : Nat) (t : Ty) : Prop := ∃ x, g.node? n = some x ∧ x.kind = .definition t
 
-theorem isDefNode_addEdge {g : Graph} {n a b : Nat} {k : EdgeKind} (h : IsDefNode g n) :
-    IsDefNode (g.addEdge a b k) n := h
+theorem isDefNode_addEdge {g : Graph} {n a b : Nat} {t : Ty} {k : EdgeKind} (h : IsDefNode g n t) :
+    IsDefNode (g.addEdge a b k) n t := h
 
-theorem inv_depInStep {ctx : Ctx} {g : Graph} {ty : Ty} {idx : Nat} (h : Inv ctx g) (hidx : IsDefNode g idx)
-    (dep : Ty) : Inv ctx (depInStep ty idx g dep) ∧ IsDefNode (depInStep ty idx g dep) idx ∧
+theorem inv_depInStep {ctx : Ctx} {g : Graph} {ty : Ty} {idx : Nat} (h : Inv ctx g) (hidx : IsDefNode g idx ty)
+    (dep : Ty) (hle : dep ≤ ty) : Inv ctx (depInStep ty idx g dep) ∧ IsDefNode (depInStep ty idx g dep) idx ty ∧
       (depInStep ty idx g dep).defined = g.defined ∧ (depInStep ty idx g dep).nodes = g.nodes := by
   unfold depInStep
   split
   · exact ⟨h, hidx, rfl, rfl⟩
-  · split
+  · rename_i hne
+    split
     · exact ⟨h, hidx, rfl, rfl⟩
     · rename_i d hd
       split
       · exact ⟨h, hidx, rfl, rfl⟩
       · obtain ⟨y, hy, hyd⟩ := hidx
         obtain ⟨x, hx, hxk⟩ := h.definedLive' (dep, d) (alGet_eq_some_mem hd)
-        have hxd : x.isDef = true := by simp only at hxk; simp [Node.isDef, hxk]
-        exact ⟨inv_addDepEdge h hx hxd hy hyd, ⟨y, hy, hyd⟩, rfl, rfl⟩
+        exact ⟨inv_addDepEdge h hx hxk hy hyd (Nat.lt_of_le_of_ne hle hne), ⟨y, hy, hyd⟩, rfl, rfl⟩
 
-theorem inv_depsIn {ctx : Ctx} (ty : Ty) (idx : Nat) : ∀ (vs : List Ty) (g : Graph), Inv ctx g → IsDefNode g idx →
-    Inv ctx (vs.foldl (depInStep ty idx) g) ∧ IsDefNode (vs.foldl (depInStep ty idx) g) idx ∧
+theorem inv_depsIn {ctx : Ctx} (ty : Ty) (idx : Nat) : ∀ (vs : List Ty) (g : Graph), (∀ v ∈ vs, v ≤ ty) →
+    Inv ctx g → IsDefNode g idx ty →
+    Inv ctx (vs.foldl (depInStep ty idx) g) ∧ IsDefNode (vs.foldl (depInStep ty idx) g) idx ty ∧
     (vs.foldl (depInStep ty idx) g).defined = g.defined ∧ (vs.foldl (depInStep ty idx) g).nodes = g.nodes
-  | [], g, h, hi => ⟨h, hi, rfl, rfl⟩
-  | v :: r, g, h, hi => by
-    obtain ⟨h1, h2, h3, h4⟩ := inv_depInStep (ty := ty) h hi v
-    obtain ⟨k1, k2, k3, k4⟩ := inv_depsIn ty idx r _ h1 h2
+  | [], g, _, h, hi => ⟨h, hi, rfl, rfl⟩
+  | v :: r, g, hle, h, hi => by
+    obtain ⟨h1, h2, h3, h4⟩ := inv_depInStep (ty := ty) h hi v (hle v (List.mem_cons_self ..))
+    obtain ⟨k1, k2, k3, k4⟩ := inv_depsIn ty idx r _ (fun v' hv' => hle v' (List.mem_cons_of_mem _ hv')) h1 h2
     exact ⟨k1, k2, k3.trans h3, k4.trans h4⟩
 
-theorem inv_depOutStep {ctx : Ctx} {g : Graph} {ty : Ty} {idx o : Nat} (h : Inv ctx g) (hidx : IsDefNode g idx)
-    (ho : IsDefNode g o) (v : Ty) : Inv ctx (depOutStep ty idx o g v) ∧ (depOutStep ty idx o g v).nodes = g.nodes := by
+theorem inv_depOutStep {ctx : Ctx} {g : Graph} {ty oty : Ty} {idx o : Nat} (h : Inv ctx g)
+    (hidx : IsDefNode g idx ty) (ho : IsDefNode g o oty) (v : Ty) (hlt : v = ty → ty < oty) :
+    Inv ctx (depOutStep ty idx o g v) ∧ (depOutStep ty idx o g v).nodes = g.nodes := by
   unfold depOutStep
   split
-  · obtain ⟨x, hx, hxd⟩ := hidx
+  · rename_i hc
+    have hv : v = ty := by
+      simp only [Bool.and_eq_true, decide_eq_true_eq] at hc
+      exact hc.1
+    obtain ⟨x, hx, hxd⟩ := hidx
     obtain ⟨y, hy, hyd⟩ := ho
-    exact ⟨inv_addDepEdge h hx hxd hy hyd, rfl⟩
+    exact ⟨inv_addDepEdge h hx hxd hy hyd (hlt hv), rfl⟩
   · exact ⟨h, rfl⟩
 
-theorem isDefNode_congr {g g' : Graph} (hn : g'.nodes = g.nodes) {n : Nat} (h : IsDefNode g n) : IsDefNode g' n := by
+theorem isDefNode_congr {g g' : Graph} (hn : g'.nodes = g.nodes) {n : Nat} {t : Ty} (h : IsDefNode g n t) :
+    IsDefNode g' n t := by
   obtain ⟨x, hx, hd⟩ := h
   exact ⟨x, by rw [node?_congr hn]; exact hx, hd⟩
 
-theorem inv_depsOutInner {ctx : Ctx} (ty : Ty) (idx o : Nat) : ∀ (vs : List Ty) (g : Graph), Inv ctx g →
-    IsDefNode g idx → IsDefNode g o →
+theorem inv_depsOutInner {ctx : Ctx} (ty oty : Ty) (idx o : Nat) : ∀ (vs : List Ty) (g : Graph),
+    (ty ∈ vs → ty < oty) → Inv ctx g → IsDefNode g idx ty → IsDefNode g o oty →
     Inv ctx (vs.foldl (depOutStep ty idx o) g) ∧ (vs.foldl (depOutStep ty idx o) g).nodes = g.nodes
-  | [], g, h, _, _ => ⟨h, rfl⟩
-  | v :: r, g, h, hi, ho => by
-    obtain ⟨h1, h2⟩ := inv_depOutStep (ty := ty) h hi ho v
-    obtain ⟨k1, k2⟩ := inv_depsOutInner ty idx o r _ h1 (isDefNode_congr h2 hi) (isDefNode_congr h2 ho)
+  | [], g, _, h, _, _ => ⟨h, rfl⟩
+  | v :: r, g, hlt, h, hi, ho => by
+    obtain ⟨h1, h2⟩ := inv_depOutStep (ty := ty) h hi ho v (fun hv => hlt (by rw [hv]; exact List.mem_cons_self ..))
+    obtain ⟨k1, k2⟩ := inv_depsOutInner ty oty idx o r _ (fun hm => hlt (List.mem_cons_of_mem _ hm)) h1
+      (isDefNode_congr h2 hi) (isDefNode_congr h2 ho)
     exact ⟨k1, k2.trans h2⟩
 
 theorem inv_depsOut {ctx : Ctx} (ty : Ty) (idx : Nat) : ∀ (order : List (Ty × Nat)) (g : Graph), Inv ctx g →
-    IsDefNode g idx → (∀ e ∈ order, IsDefNode g e.2) →
+    IsDefNode g idx ty → (∀ e ∈ order, IsDefNode g e.2 e.1 ∧ (ty ∈ ctx.tyVisits e.1 → ty < e.1)) →
     Inv ctx (order.foldl (fun g e => (ctx.tyVisits e.1).foldl (depOutStep ty idx e.2) g) g)
   | [], g, h, _, _ => h
   | e :: r, g, h, hi, ho => by
-    obtain ⟨h1, h2⟩ := inv_depsOutInner (ctx := ctx) ty idx e.2 (ctx.tyVisits e.1) g h hi (ho e (List.mem_cons_self ..))
+    obtain ⟨ho1, ho2⟩ := ho e (List.mem_cons_self ..)
+    obtain ⟨h1, h2⟩ := inv_depsOutInner (ctx := ctx) ty e.1 idx e.2 (ctx.tyVisits e.1) g ho2 h hi ho1
     exact inv_depsOut ty idx r _ h1 (isDefNode_congr h2 hi)
-      (fun e' he' => isDefNode_congr h2 (ho e' (List.mem_cons_of_mem _ he')))
+      (fun e' he' => ⟨isDefNode_congr h2 (ho e' (List.mem_cons_of_mem _ he')).1, (ho e' (List.mem_cons_of_mem _ he')).2⟩)
 
 /-! ### the loops commute with entering the node into the maps -/
 
